@@ -227,6 +227,21 @@ def leakOutside (P : PyVal → Bool) : List String → PyVal → Bool
            | none => false)
     | _ => anyLeaf P cur
 
+def leakOutsidePath (P : PyVal → Bool) (obj : PyVal) (path : String) : Bool :=
+  match PyVal.splitStr '.' path with
+  | [] => anyLeaf P obj
+  | parts => leakOutside P parts obj
+
+/-- the segment is a plain key or an index that is not negative: the position it denotes does not depend
+    on the current length of the list -/
+def stableSeg (p : String) : Bool :=
+  match parseSeg p with
+  | .invalid => false
+  | .key _ => true
+  | .index _ i => decide (0 ≤ i)
+
+def stablePath (path : String) : Bool := (PyVal.splitStr '.' path).all stableSeg
+
 /-! ### `apply_obligations` -/
 
 def phMask : PyVal := .str "***"
